@@ -22,6 +22,7 @@ type SchedConfig struct {
 	EnvMode      string   `json:"env_mode,omitempty"`
 	Bubble       bool     `json:"bubble,omitempty"`
 	GoMode       string   `json:"go_mode,omitempty"`
+	PreemptEvery int      `json:"preempt_every,omitempty"`
 	Replay       []Choice `json:"replay,omitempty"`
 	UseReplay    bool     `json:"use_replay,omitempty"`
 	Sandbox      string   `json:"sandbox,omitempty"`
